@@ -72,6 +72,13 @@ func (j *jit) wait() {
 	}
 }
 
+// touchOwnMap : what a caller that keeps a registry of its inputs does after the constructor has
+// returned - it writes to the map it passed in Opts.Inputs.
+func touchOwnMap(ins map[uint]<-chan int) {
+	ins[1<<20] = nil
+	delete(ins, 1<<20)
+}
+
 // readHandlerLogs reads, without any synchronisation of its own, what the handlers wrote before
 // they released their items. It is only called by a goroutine that has seen the discipline
 // terminate gracefully (GracefulStop returned, Err() closed), which the library orders after the
@@ -139,6 +146,7 @@ func Execute(s Script) Result {
 				res.NewErr = err.Error()
 				break
 			}
+			touchOwnMap(ins) // the map is the caller's: it goes on using it (its registry of inputs)
 			spawn(func(*jit) {
 				select {
 				case <-d.Err():
@@ -152,6 +160,7 @@ func Execute(s Script) Result {
 			res.NewErr = err.Error()
 			break
 		}
+		touchOwnMap(ins) // the map is the caller's: it goes on using it (its registry of inputs)
 		// every handler keeps a plain log of what it processed; whoever sees the discipline
 		// terminated may read the logs: termination comes after the last release
 		work := make([][]int, s.H+1)
@@ -190,6 +199,7 @@ func Execute(s Script) Result {
 				res.NewErr = err.Error()
 				break
 			}
+			touchOwnMap(ins) // the map is the caller's: it goes on using it (its registry of inputs)
 			spawn(func(*jit) {
 				start := time.Now()
 				ended := false
@@ -240,6 +250,7 @@ func Execute(s Script) Result {
 			res.NewErr = err.Error()
 			break
 		}
+		touchOwnMap(ins) // the map is the caller's: it goes on using it (its registry of inputs)
 		stopped := make(chan struct{})
 		var adds sync.WaitGroup
 		work := make([][]int, s.H+1) // plain per-handler logs, read after a graceful stop has returned
